@@ -134,8 +134,8 @@ func (c *scriptConn) usage() (n, b int) {
 type c11Result struct {
 	violation, sig string
 	knownHits      []Violation // findings listed in the known-findings file: recorded, the case goes on
-	evs            []string // model events
-	batches        []string // ids (model numbering) sent per non-empty query, in order
+	evs            []string    // model events
+	batches        []string    // ids (model numbering) sent per non-empty query, in order
 	sentTotal      int
 	spins          int
 	queries        int
@@ -247,21 +247,28 @@ func c11Run(t *testing.T, seed int64, cs c11Case, known map[string]bool) *c11Res
 			if err != nil {
 				t.Fatal(err)
 			}
-			for i, d := range ds {
-				sz := len(d.Edges.Message.Payload)
+			var eligible []*ent.Delivery
+			for _, d := range ds {
 				if cs.Ordered && d.NotBeforeID != uuid.Nil {
 					if p, err := w.Client.Delivery.Get(qctx, d.NotBeforeID); err == nil && p.CompletedAt == nil && p.ExpiresAt.After(now) {
 						continue // blocked by its predecessor
 					}
 				}
+				eligible = append(eligible, d)
+			}
+			for i, d := range eligible {
+				sz := len(d.Edges.Message.Payload)
 				if (n == 0 && i == 0) || (sz <= freeB && freeB >= 1) {
 					how := "is quiescent"
 					if w.Ctl.Spinning() {
 						how = "is busy-looping over fetches that send nothing"
 					}
-					res.violation = fmt.Sprintf("after action %d (%s): the stream %s although a deliverable message of %d bytes fits the free capacity (%d messages, %d bytes free; %d outstanding)", step, a.K, how, sz, freeM, freeB, n)
+					// the fetch asks for at most freeM candidates (oldest first): a fitting message inside that
+					// window was a candidate and has been skipped; one beyond it is hidden behind larger ones
+					inWindow := i < freeM && i < 100
+					res.violation = fmt.Sprintf("after action %d (%s): the stream %s although a deliverable message of %d bytes (candidate %d of the fetch window of %d) fits the free capacity (%d messages, %d bytes free; %d outstanding)", step, a.K, how, sz, i+1, freeM, freeM, freeB, n)
 					res.sig = "stall"
-					if w.Ctl.Spinning() {
+					if !inWindow {
 						res.sig = "stall-head-of-line"
 					}
 					if known[res.sig] {
@@ -359,6 +366,9 @@ func c11Cases(rng *rand.Rand, n int) []c11Case {
 		{Name: "bytes-exactly-two", Actions: []c11Action{{K: "publish", Pads: []int{10, 10, 10}}, {K: "fc", Msgs: 5, Byts: 50}, {K: "ack", Pick: []int{0}}, {K: "extack", Pick: []int{0}}}},
 		{Name: "external-ack-frees-capacity", Actions: []c11Action{{K: "fc", Msgs: 2, Byts: 10000}, {K: "publish", Pads: []int{0, 0, 0, 0}}, {K: "extack", Pick: []int{0}}, {K: "extack", Pick: []int{0, 1}}}},
 		{Name: "zero-deadline-frees-capacity", Actions: []c11Action{{K: "fc", Msgs: 2, Byts: 10000}, {K: "publish", Pads: []int{0, 0, 0, 0}}, {K: "delay0", Pick: []int{1}}, {K: "ack", Pick: []int{0}}}},
+		{Name: "exact-fit", Actions: []c11Action{{K: "publish", Pads: []int{0, 0, 0, 0}}, {K: "fc", Msgs: 5, Byts: 28}, {K: "ack", Pick: []int{0}}, {K: "ack", Pick: []int{0, 1}}}},
+		{Name: "exact-fit-single", Actions: []c11Action{{K: "fc", Msgs: 5, Byts: 14}, {K: "publish", Pads: []int{0, 0}}, {K: "ack", Pick: []int{0}}}},
+		{Name: "exact-fit-second", Actions: []c11Action{{K: "publish", Pads: []int{6, 0, 0}}, {K: "fc", Msgs: 5, Byts: 34}, {K: "nack", Pick: []int{1}}}},
 		{Name: "small-behind-large", Actions: []c11Action{{K: "publish", Pads: []int{5, 60, 5}}, {K: "fc", Msgs: 2, Byts: 60}, {K: "ack", Pick: []int{0}}}},
 		{Name: "ordered-stream", Ordered: true, Actions: []c11Action{{K: "fc", Msgs: 3, Byts: 10000}, {K: "publish", Pads: []int{0, 0, 0, 0, 0}}, {K: "ack", Pick: []int{0}}, {K: "ack", Pick: []int{0}}, {K: "extack", Pick: []int{0}}}},
 		{Name: "grow-limits", Actions: []c11Action{{K: "publish", Pads: []int{0, 0, 0, 0, 0, 0}}, {K: "fc", Msgs: 1, Byts: 100}, {K: "fc", Msgs: 3, Byts: 200}, {K: "ack", Pick: []int{0, 1}}, {K: "fc", Msgs: 6, Byts: 1000}}},
@@ -367,7 +377,7 @@ func c11Cases(rng *rand.Rand, n int) []c11Case {
 		c := c11Case{Name: fmt.Sprintf("random-%d", i), Ordered: rng.Intn(5) == 0}
 		sizes := []int{0, 0, 5, 20, 60, 200}
 		maxM := 1 + rng.Intn(4)
-		maxB := []int{1, 20, 40, 45, 80, 100, 300, 100000}[rng.Intn(8)]
+		maxB := []int{1, 14, 20, 28, 40, 42, 45, 80, 100, 300, 100000}[rng.Intn(11)]
 		if rng.Intn(2) == 0 {
 			c.Actions = append(c.Actions, c11Action{K: "fc", Msgs: maxM, Byts: maxB})
 		}
